@@ -20,7 +20,7 @@ NT_RULE = ('1-8 formation reactions sharing gas reference species, norm factors 
            'branch; distinct = canonical JSON')
 REQUIRED_ORACLES = ['D1', 'D2', 'D3']
 REQUIRED_CLASSES = ['scan:1D', 'scan:2D', 'var:T', 'var:P', 'var:species_kwargs', 'units:yes', 'units:no',
-                    'stable:changes', 'norms:int', 'norms:float', 'span:max_before_min', 'span:max_after_min', 'span:with_ts', 'span:network', 'span:chain', 'span:cycle', 'span:unchained', 'reactions:duplicate',
+                    'stable:changes', 'norms:int', 'norms:float', 'span:max_before_min', 'span:max_after_min', 'span:with_ts', 'span:network', 'span:chain', 'span:cycle', 'span:unchained', 'span:unchained:scaled', 'span:unchained:third_decimal', 'span:unchained:twin', 'reactions:duplicate',
                     'grid:1', 'reactions:1']
 REQUIRED_PROBES = ['PhaseDiagram.get_GoRT_1D', 'PhaseDiagram.get_GoRT_2D', 'Reactions.get_E_span',
                    'Network.get_E_span']
@@ -88,11 +88,11 @@ def _gen_span(rng):
             for key in ('a_low', 'a_high'):
                 sp[key][5] += rng.uniform(-3e4, 3e4)
             species[nm] = S.make_continuous_nasa(sp)
-            names.append([nm, rng.choice([1, 1, 2, 0.5])])
+            names.append([nm, rng.choice([1, 1, 2, 0.5, 0.33, 1.5])])
         return names
     states = [state('I%d' % i, rng.choice([1, 1, 2])) for i in range(n + 1)]
     ts = [state('TS%d' % i, 1) if rng.random() < 0.6 else None for i in range(n)]
-    shape = rng.choice(['chain', 'chain', 'cycle', 'unchained'])
+    shape = rng.choice(['chain', 'chain', 'cycle', 'unchained', 'unchained'])
     if shape == 'cycle' and n >= 2:
         states[-1] = [list(x) for x in states[0]]         # a catalytic cycle: the path ends where it started
     elif shape == 'cycle':
@@ -101,7 +101,26 @@ def _gen_span(rng):
     if shape == 'unchained':
         # step i+1 consumes slightly different amounts than step i produced (coefficients differ beyond the
         # second decimal): consecutive states are different states
-        consumed = [[[nm, round(v * 1.0101, 4)] for nm, v in st] for st in states[1:-1]]
+        variant = rng.choice(['scaled', 'third_decimal', 'third_decimal', 'twin'])
+        if variant == 'scaled':
+            consumed = [[[nm, round(v * 1.0101, 4)] for nm, v in st] for st in states[1:-1]]
+        elif variant == 'third_decimal':
+            # amounts that print alike to two decimals (0.33 produced, 0.3333 consumed)
+            consumed = [[[nm, round(v + rng.choice([0.0033, 0.004, -0.004, 0.0049]), 4)] for nm, v in st]
+                        for st in states[1:-1]]
+        else:
+            # the next step was taken from another data set: same species NAMES, other objects and data
+            consumed = []
+            for st in states[1:-1]:
+                new = []
+                for nm, v in st:
+                    sp = RG.gen_empirical(rng, nm, kind='Nasa', phase=rng.choice(['G', 'S']))
+                    for key in ('a_low', 'a_high'):
+                        sp[key][5] += rng.uniform(-3e4, 3e4)
+                    species[nm + '~2'] = S.make_continuous_nasa(sp)
+                    new.append([nm + '~2', v])
+                consumed.append(new)
+        shape = 'unchained:' + variant
     return {'kind': 'span', 'species': species, 'states': states, 'ts': ts, 'shape': shape, 'consumed': consumed,
             'cond': {'T': round(rng.uniform(300, 2500), 2), 'P': S.logu(rng, 1e-2, 1e1, 4)},
             # the same objects are evaluated again at other conditions (stale caches, state kept between calls)
@@ -281,7 +300,8 @@ def _span(spec, ctx):
         if ts[i]:
             path.append(ts[i])
         path.append(states[i + 1])
-    if shape == 'unchained':
+    if shape.startswith('unchained'):
+        ctx.cls('span:unchained')
         net = None                              # not a connected pathway
     node_path = None
     if net is not None:
